@@ -337,6 +337,7 @@ def rust_str(s):
 
 def render_enum(decl, cfg, name='E', derives='Clone, Copy, EnumTools', extra_attrs=(), sorted_attr=None):
     name = decl.get('enum_name', name)
+    derives = decl.get('derives', derives)
     lines = ['#[derive(%s)]' % derives]
     lines += list(extra_attrs)
     lines += list(decl.get('enum_attrs', []))
